@@ -271,7 +271,7 @@ def thr_case(rng, engine, name, limit=None, unblock=True):
     for c in range(nc):
         decl.append([2, cnt[c]])
     if nu:
-        decl.append([3 if engine == "tq" else 6, nu, rng.randint(1, 9)])
+        decl.append([3, nu, rng.randint(1, 9)])
     rng.shuffle(decl)
     L = rng.choice([0, 6, 12, 20, 40])
     style = rng.random()
@@ -306,7 +306,7 @@ def gen_ctl(seed, tier, engine):
 
 
 def ctl_nontrivial(case, model_obs):
-    tids = [l.split()[0] for l in model_obs if len(l.split()) == 2]
+    tids = [l.split()[0] for l in model_obs if len(l.split()) == 2 and l.split()[1] in ("70", "71", "72")]
     switches = sum(1 for a, b in zip(tids, tids[1:]) if a != b)
     return switches >= 3
 
